@@ -186,8 +186,8 @@ class Parser:
             (_closepar, pytools.lex.RE(r"\)")),
             (_openbracket, pytools.lex.RE(r"\[")),
             (_closebracket, pytools.lex.RE(r"\]")),
-            (_true, pytools.lex.RE(r"True")),
-            (_false, pytools.lex.RE(r"False")),
+            (_true, pytools.lex.RE(r"True\b")),
+            (_false, pytools.lex.RE(r"False\b")),
             (_identifier, pytools.lex.RE(r"[@$a-z_A-Z_][@$a-zA-Z_0-9]*")),
             (_whitespace, pytools.lex.RE("[ \n\t]*")),
             (_comma, pytools.lex.RE(",")),
